@@ -65,6 +65,9 @@ struct MIDIEventHooks
 class OPNMIDIplay
 {
     friend void opn2_reset(struct OPN2_MIDIPlayer*);
+#ifdef OPNMIDI_VERIF
+    friend struct OPNMIDI_VerifAccess;
+#endif
 public:
     explicit OPNMIDIplay(unsigned long sampleRate = 22050);
     ~OPNMIDIplay();
